@@ -31,12 +31,14 @@ thread_local! {
     static KEEP: Cell<bool> = const { Cell::new(false) };
     static BUDGET: Cell<usize> = const { Cell::new(usize::MAX) };
     static READS: Cell<usize> = const { Cell::new(0) };
+    static RESTARTS: Cell<usize> = const { Cell::new(0) };
     static LOG: RefCell<Vec<Event>> = const { RefCell::new(Vec::new()) };
 }
 
 /// Start observing on this thread. `keep_events` stores every event in the log,
 /// otherwise only the per-attempt read counter and budget are maintained.
-/// `budget` is the maximal number of reads one match attempt may perform.
+/// `budget` is the maximal number of reads one match attempt may perform, and the maximal
+/// number of skip restarts within one `next()` call.
 pub fn arm(keep_events: bool, budget: usize) {
     ARMED.with(|a| a.set(true));
     KEEP.with(|k| k.set(keep_events));
@@ -67,6 +69,7 @@ fn push(event: Event) {
 pub(crate) fn on_next(pos: usize) {
     if ARMED.with(|a| a.get()) {
         READS.with(|r| r.set(0));
+        RESTARTS.with(|r| r.set(0));
         push(Event::Next { pos });
     }
 }
@@ -76,6 +79,16 @@ pub(crate) fn on_restart(pos: usize) {
     if ARMED.with(|a| a.get()) {
         READS.with(|r| r.set(0));
         push(Event::Restart { pos });
+        // every skip consumes at least one byte, so one `next()` call can restart at most
+        // `len` times; the same budget bounds the restarts (an empty skip would loop forever)
+        let restarts = RESTARTS.with(|r| {
+            r.set(r.get() + 1);
+            r.get()
+        });
+        if restarts > BUDGET.with(|b| b.get()) {
+            ARMED.with(|a| a.set(false));
+            panic!("{}", BUDGET_PANIC);
+        }
     }
 }
 
